@@ -412,6 +412,19 @@ def vecCheck (op : String) (a : List String) (impl : String) : Option (Bool × S
           else none
         | _, _, _, _, _ => some (false, "VECID unparsable result"))
      | _, _, _, _, _ => none)
+  | "vaxis", [ax, ay, az, ang] =>
+    -- QuatFromAxisAngle(axis, angle) = (cos(angle/2), sin(angle/2)·axis/|axis|) for EVERY angle (either sign, any number of turns)
+    (match fb ax, fb ay, fb az, fb ang, (impl.splitOn ":").mapM fb with
+     | some ax, some ay, some az, some ang, some [qw, qx, qy, qz] =>
+       let x := dyToFloat ax; let y := dyToFloat ay; let z := dyToFloat az; let t := dyToFloat ang
+       let n := Float.sqrt (x * x + y * y + z * z)
+       if n == 0.0 then none else
+       let sn := Float.sin (t * 0.5); let cs := Float.cos (t * 0.5)
+       let want := [cs, x / n * sn, y / n * sn, z / n * sn]
+       let got := [dyToFloat qw, dyToFloat qx, dyToFloat qy, dyToFloat qz]
+       if closeL got want 1e-12 then none
+       else some (false, s!"VECID QuatFromAxisAngle is not (cos(a/2), sin(a/2)·axis/|axis|): got {got}, want {want}")
+     | _, _, _, _, _ => some (false, "VECID unparsable result"))
   | "vquat", [x, y] =>
     (match parseV3 x, parseV3 y, (impl.splitOn ":").mapM fb with
      | some s, some e, some [qw, qx, qy, qz] =>
@@ -522,7 +535,8 @@ def dispatch (op : String) (a : List String) : Option String :=
   | "min", [a] => some (showOptInt (minL (intsOf a)))
   | "ashift", [i, sh] => some (toString (arithShift (int! i) (int! sh)))
   | "comb", [n, k] =>
-    some (";".intercalate ((combinations (int! n) (int! k) 10000).map fun p => " ".intercalate (p.map toString)))
+    let l := combinations (int! n) (int! k) 10000
+    some (s!"{l.length}|" ++ ";".intercalate (l.map fun p => " ".intercalate (p.map toString)))
   | "fadd", [a, b] => some (f2 a b F64.add)
   | "fsub", [a, b] => some (f2 a b F64.sub)
   | "fmul", [a, b] => some (f2 a b F64.mul)
@@ -535,6 +549,31 @@ def dispatch (op : String) (a : List String) : Option String :=
     some (match fb a, fb b, fb c with
       | some lon, some lat, some alt => (match newPoint lon lat alt with | some p => showGeo p | none => "ERR")
       | _, _, _ => "NONFINITE")
+  | "tileset", [h, x, y, v, z, w, val] =>
+    -- SetHZoom / SetVZoom on an existing tile: accepted iff 0 ≤ val ≤ 35; a refused call leaves the tile as it was
+    let ok := decide (0 ≤ int! val ∧ int! val ≤ 35)
+    some (if ok then s!"OK:{if w == "0" then val else h}/{x}/{y}/{if w == "1" then val else v}/{z}"
+          else s!"ERR:{h}/{x}/{y}/{v}/{z}")
+  | "ptset", [a, b, c, w, val] =>
+    -- SetLon / SetLat on an existing point: the domain checks of NewPoint; a refused call leaves the point as it was
+    some (match fb a, fb b, fb c, fb val with
+      | some lon, some lat, some alt, some x =>
+        (match newPoint lon lat alt with
+         | none => "BADARG"
+         | some p =>
+           if w == "0" then
+             (if F64.lt c180 (F64.abs x) then "ERR:" ++ showGeo p else "OK:" ++ showGeo { p with lon := x })
+           else
+             (match setLat x with
+              | none => "ERR:" ++ showGeo p
+              | some t => "OK:" ++ showGeo { p with lat := t }))
+      | _, _, _, _ => "NONFINITE")
+  | "extreset", [id1, id2] =>
+    -- ResetExtendedSpatialID on an existing object: a malformed string is refused and the object keeps its value
+    some (match parseExt id1 with
+      | none => "BADARG"
+      | some e1 => (match parseExt id2 with | some e2 => "OK:" ++ e2.id | none => "ERR:" ++ e1.id))
+  | "vaxis", [_, _, _, _] => some "CHECKED"
   | "pts", [items, h, v] => some (ptsModel (commaSplit items) (int! h) (int! v) false)
   | "ptssp", [items, z] => some (ptsModel (commaSplit items) (int! z) (int! z) true)
   | "geom", [id, opt, n, sth] =>
